@@ -122,9 +122,10 @@ def keyColumn (h : Heap) (f : Field) : M (List Scalar) :=
     | some ob =>
       if ob.ndim != 1 then .error .unsupported
       else if k == .time || k == .timeDelta then
+        -- an empty epoch is `datetime.min`, earlier than every real epoch
         .ok (ob.rows.map (fun r => match r with
           | [.num a, .num b] => .num (a + b)
-          | _ => .nan))
+          | _ => .num 0))
       else .ok (ob.rows.map (fun r => r.headD .nan))
 
 /-- the sorting half of `Dataset.merge_with(sort_by=…)` (after the `fix:`: `kind="stable"`):
